@@ -127,6 +127,21 @@ func gen(c *vlib.Ctx) {
 			}
 		}
 	}
+	// blocks whose genuine size sits at a 4 MiB boundary (a size cap, a buffer size): served
+	// exactly, with bytes appended, and one byte short; then a clean second sync
+	{
+		const capSize = 4 << 20
+		sizes := []int{capSize - 1, capSize, capSize + 1}
+		base := Scn{Hash: "sha2-256", BigRaw: sizes, BigNode: sizes}
+		for rank := 1; rank <= 6; rank++ {
+			size := sizes[(rank-1)%3]
+			for _, fs := range [][]Fault{nil, {{Kind: "append", Arg: 1}}, {{Kind: "append", Arg: 4096}}, {{Kind: "trunc", Arg: size - 1}}} {
+				sc := base
+				sc.Syncs = []SyncJ{{T: "one", Head: rank, Faults: fs}, {T: "one", Head: rank}}
+				runScn(c, sc, false)
+			}
+		}
+	}
 	// oversized bodies
 	for _, h := range []string{"sha2-256", "identity"} {
 		for pos := 0; pos < 2; pos++ {
